@@ -12,7 +12,7 @@ PROPERTY = "C17"
 LEVEL = "exploration"
 NEED_EXT = True
 REQUIRED = ["fit.sample_size", "fit.alignment", "fit.eligibility", "predict.mean", "predict.sorted",
-            "predict.all_vs_members"]
+            "predict.all_vs_members", "predict.after_set_params"]
 RULE = ("n in {1,2,3,5,8,10,20,50} x alpha in {0.3,0.5,1,1.5} x n_estimators x weights x n_jobs x base regressor; "
         "eligibility judged only when the union bound n*(1-1/n)^draws < 1e-9; non-trivial = n >= 3 and "
         "n_estimators >= 2; distinct = distinct configuration")
@@ -82,14 +82,21 @@ def run_case(case, ctx):
     X = numpy.column_stack([ids, rng.randn(n), rng.randn(n)])
     y = gid(ids)
     w = hid(ids) if weighted else None
+    zero_w = bool(weighted and n >= 8 and (case["sub"] // 2) % 2 == 0)
+    if zero_w:
+        # rows with weight exactly 0 are still rows of the training set: eligible, and counted in round(alpha*n)
+        w = w.copy()
+        zidx = rng.choice(n, max(1, n // 6), replace=False)
+        w[zidx] = 0.0
+        ctx.cls("zero-weights")
     size_a = int(math.floor(n * alpha + 0.5))
     sizes_ok = {size_a, int(round(n * alpha))}
     # number of models so that every row is drawn with probability > 1 - 1e-9
     per_fit = max(size_a, 1)
     need = int(math.ceil((math.log(1e9) + math.log(max(n, 2))) / -math.log(1 - 1.0 / n))) if n > 1 else 1
     m = int(min(max(2, math.ceil(need / per_fit) + 1), 400))
-    cfg = {"n": n, "alpha": alpha, "weighted": weighted, "base": case["base"], "n_jobs": case["n_jobs"],
-           "n_estimators": m}
+    cfg = {"n": n, "alpha": alpha, "weighted": weighted, "zero_weights": zero_w, "base": case["base"],
+           "n_jobs": case["n_jobs"], "n_estimators": m}
     K = "C17/"
     if size_a == 0:
         ctx.excluded("round(alpha*n)=0: nothing to train on")
@@ -101,6 +108,9 @@ def run_case(case, ctx):
         r = ir.fit(X, y) if w is None else ir.fit(X, y, sample_weight=w)
     except Exception as e:
         ctx.hit("fit.sample_size")
+        if zero_w and "non-zero" in str(e):
+            ctx.excluded("a resample made only of zero-weight rows (refused by the base regressor)")
+            return
         ctx.violation(K + "fit/raised/%s" % type(e).__name__, "fit raised on valid data (n=%d): %s: %s" % (
             n, type(e).__name__, e), cfg=cfg)
         return
@@ -129,7 +139,10 @@ def run_case(case, ctx):
             ctx.violation(K + "fit/target-misaligned", "target of a drawn row does not belong to it", cfg=cfg,
                           ids=e.ids_[:4], y=e.y_[:4])
         if weighted:
-            if e.w_ is None or not numpy.allclose(e.w_, hid(e.ids_), rtol=0, atol=0):
+            wexp = hid(e.ids_)
+            if zero_w:
+                wexp = numpy.array([w[int(numpy.where(ids == v)[0][0])] for v in e.ids_])
+            if e.w_ is None or not numpy.allclose(e.w_, wexp, rtol=0, atol=0):
                 ctx.violation(K + "fit/weight-misaligned", "weight of a drawn row does not belong to it", cfg=cfg)
         elif e.w_ is not None:
             ctx.violation(K + "fit/weight-invented", "weights passed although none were given", cfg=cfg)
@@ -196,6 +209,26 @@ def run_case(case, ctx):
             lo, hi = ps[:, 0], ps[:, -1]
             if not ((lo <= p + 1e-9 * (1 + numpy.abs(p))) & (p <= hi + 1e-9 * (1 + numpy.abs(p)))).all():
                 ctx.violation(K + "predict/mean-outside-min-max", "min <= predict <= max violated", cfg=cfg)
+    # a hyper-parameter changed after fit does not change what the fitted members predict
+    for m2 in (m * 2, max(1, m // 2)):
+        ir.set_params(n_estimators=m2)
+        Qh = q["float64"]
+        try:
+            p = ir.predict(Qh)
+            ps = ir.predict_sorted(Qh)
+        except Exception as e:
+            ctx.violation(K + "predict/raised-after-set_params/%s" % type(e).__name__, str(e)[:150], cfg=cfg)
+            continue
+        ctx.hit("predict.after_set_params")
+        members = numpy.column_stack([e.predict(Qh) for e in ests])
+        if not numpy.allclose(p, members.mean(axis=1), rtol=1e-12, atol=1e-12):
+            ctx.violation(K + "predict/not-mean/after-set_params", "after set_params(n_estimators=%d) on a model "
+                          "fitted with %d members, predict is no longer the mean of the members' predictions" % (
+                              m2, m), cfg=cfg)
+        if not numpy.array_equal(ps, numpy.sort(members, axis=1)):
+            ctx.violation(K + "predict/sorted-differs/after-set_params", "predict_sorted changed after set_params",
+                          cfg=cfg)
+    ir.set_params(n_estimators=m)
     if n >= 3 and m >= 2:
         ctx.nontriv(cfg)
     ctx.sample({"cfg": cfg, "draws": total, "distinct_rows_drawn": len(drawn),
